@@ -101,6 +101,58 @@ fn impl_owner(i: &syn::ItemImpl) -> Option<String> {
     }
 }
 
+/// `Type` (inherent impl) or `Type@Trait` (the `impl Trait for Type` block)
+fn split_owner(o: &str) -> (&str, Option<&str>) {
+    match o.split_once('@') {
+        Some((t, tr)) => (t, Some(tr)),
+        None => (o, None),
+    }
+}
+
+fn last_seg(p: &syn::Path) -> Option<String> {
+    p.segments.last().map(|s| s.ident.to_string())
+}
+
+/// does this impl block hold the methods of owner spec `spec`?
+fn impl_matches(i: &syn::ItemImpl, spec: &str) -> bool {
+    let (ty, tr) = split_owner(spec);
+    let self_ty = match &*i.self_ty {
+        syn::Type::Path(tp) if tp.qself.is_none() => last_seg(&tp.path),
+        _ => None,
+    };
+    if self_ty.as_deref() != Some(ty) {
+        return false;
+    }
+    match (tr, &i.trait_) {
+        (None, None) => true,
+        (Some(t), Some((None, path, _))) => last_seg(path).as_deref() == Some(t),
+        _ => false,
+    }
+}
+
+/// In the state-passing translation of a `&mut self` target every value the body yields in tail
+/// position becomes `(value, self)` with the version of `self` in scope at that point (`return`s
+/// were paired when they were translated).
+fn wrap_tails(e: E, cur: &str, versions: &BTreeSet<String>) -> E {
+    match e {
+        E::Let(p, i, b) => {
+            let next = match &p {
+                Pat::Var(v) if versions.contains(v) => v.clone(),
+                _ => cur.to_string(),
+            };
+            E::Let(p, i, Box::new(wrap_tails(*b, &next, versions)))
+        }
+        E::If(c, t, f) => E::If(c, Box::new(wrap_tails(*t, cur, versions)), Box::new(wrap_tails(*f, cur, versions))),
+        E::Match(s, st, arms) => E::Match(
+            s,
+            st,
+            arms.into_iter().map(|a| Arm { pat: a.pat, guard: a.guard, body: wrap_tails(a.body, cur, versions) }).collect(),
+        ),
+        E::Return(_) | E::Panic => e,
+        other => E::Tuple(vec![other, E::Var(cur.to_string())]),
+    }
+}
+
 struct Parsed {
     rel: String,
     ast: syn::File,
@@ -240,6 +292,8 @@ fn translate_group(repo: &Path, g: &targets::Group) -> R<String> {
     struct Src<'s> {
         rel: String,
         owner: String,
+        /// owner as written in the whitelist (`Type` or `Type@Trait`)
+        spec: String,
         name: String,
         sig: &'s syn::Signature,
         block: &'s syn::Block,
@@ -259,20 +313,23 @@ fn translate_group(repo: &Path, g: &targets::Group) -> R<String> {
                         return refuse(&p.rel, line_of(func), format!("fn `{}` is under `#[cfg]`", name));
                     }
                     let text = format!("{} {}", tok(&func.sig), tok(&func.block));
-                    found = Some(Src { rel: p.rel.clone(), owner: String::new(), name: name.to_string(), sig: &func.sig, block: &func.block, text });
+                    found = Some(Src { rel: p.rel.clone(), owner: String::new(), spec: String::new(), name: name.to_string(), sig: &func.sig, block: &func.block, text });
                 }
-                syn::Item::Impl(i) if !owner.is_empty() && impl_owner(i).as_deref() == Some(owner.as_str()) => {
+                syn::Item::Impl(i) if !owner.is_empty() && impl_matches(i, owner) => {
+                    if is_cfg(&i.attrs) {
+                        return refuse(&p.rel, line_of(i), format!("the impl block of `{}` is under `#[cfg]`", owner));
+                    }
                     for ii in &i.items {
                         if let syn::ImplItem::Method(m) = ii {
                             if m.sig.ident == name.as_str() {
                                 if found.is_some() {
                                     return refuse(&p.rel, line_of(m), format!("fn `{}::{}` is defined twice", owner, name));
                                 }
-                                if m.attrs.iter().any(|a| a.path.is_ident("cfg")) {
+                                if m.attrs.iter().any(|a| a.path.is_ident("cfg") || a.path.is_ident("cfg_attr")) {
                                     return refuse(&p.rel, line_of(m), format!("fn `{}::{}` is under `#[cfg]`", owner, name));
                                 }
                                 let text = format!("{} {}", tok(&m.sig), tok(&m.block));
-                                found = Some(Src { rel: p.rel.clone(), owner: owner.to_string(), name: name.to_string(), sig: &m.sig, block: &m.block, text });
+                                found = Some(Src { rel: p.rel.clone(), owner: split_owner(owner).0.to_string(), spec: owner.to_string(), name: name.to_string(), sig: &m.sig, block: &m.block, text });
                             }
                         }
                     }
@@ -290,6 +347,43 @@ fn translate_group(repo: &Path, g: &targets::Group) -> R<String> {
         // functions of other types (e.g. `ReadMem::maximum_read_length`) keep the owner as a
         // name prefix only
         d.add_sig(&s.rel, &s.owner, s.sig)?;
+        // opaque calls of this target: one extra parameter each, typed by the trait declaration
+        for o in g.opaque.iter().filter(|o| o.owner == s.spec && o.func == s.name) {
+            let p = &files[&s.rel];
+            let mut ty: Option<Ty> = None;
+            for it in find_items(&p.ast) {
+                if let syn::Item::Trait(t) = it {
+                    if t.ident != o.tr.as_str() {
+                        continue;
+                    }
+                    for ti in &t.items {
+                        if let syn::TraitItem::Method(m) = ti {
+                            if m.sig.ident != o.method.as_str() {
+                                continue;
+                            }
+                            let only_ref_self = m.sig.inputs.len() == 1
+                                && matches!(m.sig.inputs.first(), Some(syn::FnArg::Receiver(r)) if r.reference.is_some() && r.mutability.is_none());
+                            if !only_ref_self || !m.sig.generics.params.is_empty() {
+                                return refuse(&s.rel, line_of(m), format!("trait method `{}::{}` is not `fn(&self) -> T`", o.tr, o.method));
+                            }
+                            if ty.is_some() {
+                                return refuse(&s.rel, line_of(m), format!("trait method `{}::{}` is declared twice", o.tr, o.method));
+                            }
+                            ty = Some(match &m.sig.output {
+                                syn::ReturnType::Type(_, t) => d.ty(&s.rel, t, None)?,
+                                syn::ReturnType::Default => Ty::Unit,
+                            });
+                        }
+                    }
+                }
+            }
+            let ty = match ty {
+                Some(t @ Ty::Int(..)) | Some(t @ Ty::Bool) => t,
+                _ => return refuse(&s.rel, line_of(s.sig), format!("opaque call `{}`: trait method `{}::{}` with an integer result not found", o.expr, o.tr, o.method)),
+            };
+            // the abstraction is only meaningful for a call on a field of `self` of the generic type
+            d.fns.get_mut(&(s.owner.clone(), s.name.clone())).unwrap().params.push((o.param.clone(), ty));
+        }
     }
 
     let mut defs: Vec<FnDef> = vec![];
@@ -297,6 +391,10 @@ fn translate_group(repo: &Path, g: &targets::Group) -> R<String> {
         let sig = d.fns[&(s.owner.clone(), s.name.clone())].clone();
         let (mut cx, params) = FnCx::new(&d, &s.rel, &s.owner, &sig);
         cx.inline_stack.push((s.owner.clone(), s.name.clone()));
+        for o in g.opaque.iter().filter(|o| o.owner == s.spec && o.func == s.name) {
+            let ty = sig.params.iter().find(|(n, _)| *n == o.param).map(|(_, t)| t.clone()).unwrap();
+            cx.opaque.push((o.expr.split_whitespace().collect(), o.param.clone(), ty));
+        }
         let ret = sig.ret.clone();
         let mut af = AttrFinder { first: None };
         syn::visit::Visit::visit_block(&mut af, s.block);
@@ -304,8 +402,13 @@ fn translate_group(repo: &Path, g: &targets::Group) -> R<String> {
             return refuse(&s.rel, l, format!("attribute `{}` inside the body of `{}`", a, s.name));
         }
         let (mut body, _) = cx.block(s.block, Some(&ret))?;
-        cx.zonk(&mut body, line_of(s.sig))?;
         let mut sig2 = sig.clone();
+        if sig.mut_self {
+            let self_name = params.iter().find(|(n, _)| n == "self").map(|(n, _)| n.clone()).unwrap_or_else(|| "self".to_string());
+            body = wrap_tails(body, &self_name, &cx.self_versions);
+            sig2.ret = Ty::Tuple(vec![ret.clone(), Ty::Struct(s.owner.clone())]);
+        }
+        cx.zonk(&mut body, line_of(s.sig))?;
         sig2.params = params;
         defs.push(FnDef {
             sig: sig2,
@@ -316,7 +419,11 @@ fn translate_group(repo: &Path, g: &targets::Group) -> R<String> {
             hash: sha::sha256_hex(s.text.as_bytes()),
             file: s.rel.clone(),
             line: line_of(s.sig),
-            rust_path: if s.owner.is_empty() { s.name.clone() } else { format!("{}::{}", s.owner, s.name) },
+            rust_path: match split_owner(&s.spec) {
+                _ if s.owner.is_empty() => s.name.clone(),
+                (t, Some(tr)) => format!("<{} as {}>::{}", t, tr, s.name),
+                (t, None) => format!("{}::{}", t, s.name),
+            },
         });
     }
 
@@ -546,5 +653,210 @@ fn main() {
     }
     if failed {
         std::process::exit(2);
+    }
+}
+
+#[cfg(test)]
+mod tests {
+    //! Unit tests of the constructs added for the command-packet / chunk-iterator targets:
+    //! struct literals, `&mut self` as state passing, trait-impl targets (`Type@Trait`), opaque
+    //! trait-method calls on a generic field, message locals / parameters.
+    use super::*;
+    use std::sync::atomic::{AtomicUsize, Ordering};
+
+    static N: AtomicUsize = AtomicUsize::new(0);
+
+    fn group(structs: &[&str], fns: &[(&str, &str)], opaque: Vec<targets::Opaque>) -> targets::Group {
+        targets::Group {
+            out: "FnT".into(),
+            doc: "test".into(),
+            tie: "(none)".into(),
+            enums: vec![],
+            structs: structs.iter().map(|s| ("t.rs".to_string(), s.to_string())).collect(),
+            consts: vec![],
+            fns: fns.iter().map(|(o, n)| ("t.rs".to_string(), o.to_string(), n.to_string())).collect(),
+            result_aliases: vec!["Result".into()],
+            opaque,
+        }
+    }
+
+    fn tr(src: &str, g: &targets::Group) -> std::result::Result<String, String> {
+        let dir = std::env::temp_dir().join(format!("rs2lean-test-{}-{}", std::process::id(), N.fetch_add(1, Ordering::SeqCst)));
+        std::fs::create_dir_all(&dir).unwrap();
+        std::fs::write(dir.join("t.rs"), src).unwrap();
+        let r = translate_group(&dir, g).map_err(|e| e.to_string());
+        let _ = std::fs::remove_dir_all(&dir);
+        r
+    }
+
+    fn flat(s: &str) -> String {
+        s.split_whitespace().collect::<Vec<_>>().join(" ")
+    }
+
+    const IT: &str = r#"
+        pub struct Item { pub pos: u64, pub len: u16 }
+        pub struct It { pos: u64, left: u16, max: usize }
+        impl Item { pub fn new(pos: u64, len: u16) -> Self { Self { pos, len } } }
+    "#;
+
+    #[test]
+    fn struct_literal_fields_in_source_order() {
+        let src = format!("{}\nimpl Item {{ pub fn swap(self) -> Item {{ Item {{ len: self.len + 1, pos: self.pos * 2 }} }} }}", IT);
+        let out = flat(&tr(&src, &group(&["Item", "It"], &[("Item", "swap")], vec![])).unwrap());
+        // `len` is evaluated (and may panic) before `at`
+        let a = out.find("Machine.addU p self.len 1#16").expect("len expr");
+        let b = out.find("Machine.mulU p self.pos 2#64").expect("at expr");
+        assert!(a < b, "{}", out);
+        assert!(out.contains("({ len := t__1, pos := t__2 } : Item)"), "{}", out);
+    }
+
+    #[test]
+    fn struct_literal_must_be_complete_and_plain() {
+        let src = format!("{}\nimpl Item {{ pub fn f(self) -> Item {{ Item {{ len: 1, ..self }} }} }}", IT);
+        let e = tr(&src, &group(&["Item", "It"], &[("Item", "f")], vec![])).unwrap_err();
+        assert!(e.contains("struct literal with `..base`"), "{}", e);
+        let src = format!("{}\npub struct Other {{ x: u8 }}\nimpl Item {{ pub fn f(self) -> u8 {{ let o = Other {{ x: 1 }}; 2 }} }}", IT);
+        let e = tr(&src, &group(&["Item", "It"], &[("Item", "f")], vec![])).unwrap_err();
+        assert!(e.contains("not a whitelisted struct"), "{}", e);
+    }
+
+    const NEXT: &str = r#"
+        impl Iterator for It {
+            type Item = Item;
+            fn next(&mut self) -> Option<Item> {
+                if self.left == 0 {
+                    return None;
+                }
+                if self.left as usize > self.max {
+                    let item = Item::new(self.pos, self.max as u16);
+                    self.left -= self.max as u16;
+                    self.pos += self.max as u64;
+                    Some(item)
+                } else {
+                    let item = Item::new(self.pos, self.left);
+                    self.left = 0;
+                    Some(item)
+                }
+            }
+        }
+    "#;
+
+    #[test]
+    fn mut_self_is_state_passing_and_trait_impl_targets_are_found() {
+        let src = format!("{}{}", IT, NEXT);
+        let out = flat(&tr(&src, &group(&["Item", "It"], &[("It@Iterator", "next")], vec![])).unwrap());
+        assert!(out.contains("def It.next {ε : Type} (p : Profile) (self : It) : Res ε ((Option Item) × It)"), "{}", out);
+        // the early return pairs the untouched state, the branches their own last version
+        assert!(out.contains("Res.ok (none, self)"), "{}", out);
+        assert!(out.contains("let self_1 := { self with left := t__2 };"), "{}", out);
+        assert!(out.contains("(Machine.addU p self_1.pos self_1.max)"), "{}", out);
+        assert!(out.contains("Res.ok ((some item), self_2)"), "{}", out);
+        assert!(out.contains("let self_3 := { self with left := 0#16 }; Res.ok ((some item_1), self_3)"), "{}", out);
+        assert!(out.contains("fn <It as Iterator>::next"), "{}", out);
+        // without `@Iterator` the inherent impls are searched and the method is not there
+        let e = tr(&src, &group(&["Item", "It"], &[("It", "next")], vec![])).unwrap_err();
+        assert!(e.contains("whitelisted fn `It::next` not found"), "{}", e);
+    }
+
+    #[test]
+    fn assignment_needs_the_tail_flow() {
+        // followed by a join point
+        let src = format!("{}\nimpl It {{ pub fn f(&mut self) -> u16 {{ if self.left > 9 {{ self.left = 9; }} self.left }} }}", IT);
+        let e = tr(&src, &group(&["Item", "It"], &[("It", "f")], vec![])).unwrap_err();
+        assert!(e.contains("outside the tail flow"), "{}", e);
+        // nested in an operand
+        let src = format!("{}\nimpl It {{ pub fn f(&mut self) -> u16 {{ 1 + {{ self.left = 9; self.left }} }} }}", IT);
+        let e = tr(&src, &group(&["Item", "It"], &[("It", "f")], vec![])).unwrap_err();
+        assert!(e.contains("outside the tail flow"), "{}", e);
+        // not a field of `self`
+        let src = format!("{}\nimpl It {{ pub fn f(&mut self, o: Item) -> u16 {{ o.len = 1; 2 }} }}", IT);
+        let e = tr(&src, &group(&["Item", "It"], &[("It", "f")], vec![])).unwrap_err();
+        assert!(e.contains("assignment target is not `self.field`"), "{}", e);
+        // in a method that does not take `&mut self`
+        let src = format!("{}\nimpl It {{ pub fn f(&self) -> u16 {{ self.left = 1; 2 }} }}", IT);
+        let e = tr(&src, &group(&["Item", "It"], &[("It", "f")], vec![])).unwrap_err();
+        assert!(e.contains("only `self.field = e` in a `&mut self` method"), "{}", e);
+        // `&mut self` on a type that is not translated
+        let src = format!("{}\npub struct G<T> {{ t: T }}\nimpl<T> G<T> {{ pub fn f(&mut self) -> u16 {{ 2 }} }}", IT);
+        let e = tr(&src, &group(&["Item", "It"], &[("G", "f")], vec![])).unwrap_err();
+        assert!(e.contains("`&mut self` / `mut self` on a type that is not a whitelisted struct"), "{}", e);
+    }
+
+    #[test]
+    fn if_then_return_keeps_the_tail_flow_and_unit_methods_work() {
+        let src = format!(
+            "{}\nimpl It {{ pub fn f(&mut self, k: u16) {{ self.left ^= k; if k == 0 {{ self.pos = 0; return; }} match k {{ 1 => self.left |= 1, _ => {{ self.max = 7; }} }} }} }}",
+            IT
+        );
+        let out = flat(&tr(&src, &group(&["Item", "It"], &[("It", "f")], vec![])).unwrap());
+        assert!(out.contains("Res ε (Unit × It)"), "{}", out);
+        assert!(out.contains("let self_2 := { self_1 with pos := 0#64 }; Res.ok ((), self_2)"), "{}", out);
+        assert!(out.contains("let self_3 := { self_1 with left := (self_1.left ||| 1#16) }; Res.ok ((), self_3)"), "{}", out);
+        assert!(out.contains("let self_4 := { self_1 with max := 7#64 }; Res.ok ((), self_4)"), "{}", out);
+    }
+
+    const PKT: &str = r#"
+        pub struct Packet<T> { ccd: u8, scd: T }
+        pub trait Scd { fn scd_len(&self) -> u16; fn name(&self) -> String; fn grow(&mut self) -> u16; }
+        impl<T> Packet<T> where T: Scd {
+            const MIN: u16 = 4;
+            pub fn cmd_len(&self) -> usize { 4 + 8 + self.scd.scd_len() as usize }
+            pub fn bad(&self) -> usize { self.ccd as usize + self.scd.scd_len() as usize }
+        }
+    "#;
+
+    #[test]
+    fn opaque_trait_call_on_a_generic_field_becomes_a_parameter() {
+        let o = || vec![targets::Opaque { owner: "Packet".into(), func: "cmd_len".into(), expr: "self.scd.scd_len()".into(), param: "scd_len".into(), tr: "Scd".into(), method: "scd_len".into() }];
+        let out = flat(&tr(PKT, &group(&[], &[("Packet", "cmd_len")], o())).unwrap());
+        assert!(out.contains("def Packet.cmd_len {ε : Type} (p : Profile) (scd_len : BitVec 16) : Res ε (BitVec 64)"), "{}", out);
+        assert!(out.contains("(Machine.castU 64 scd_len)"), "{}", out);
+        // any other use of the abstracted receiver refuses the target
+        let mut ob = o();
+        ob[0].func = "bad".into();
+        let e = tr(PKT, &group(&[], &[("Packet", "bad")], ob)).unwrap_err();
+        assert!(e.contains("unknown identifier `self`"), "{}", e);
+        // the trait method must be `fn(&self) -> integer`
+        for m in ["name", "grow", "missing"] {
+            let mut ob = o();
+            ob[0].method = m.into();
+            let e = tr(PKT, &group(&[], &[("Packet", "cmd_len")], ob)).unwrap_err();
+            assert!(e.contains("is not `fn(&self) -> T`") || e.contains("with an integer result not found") || e.contains("is not an integer"), "{}: {}", m, e);
+        }
+    }
+
+    #[test]
+    fn messages_are_abstracted_and_never_values() {
+        let src = r#"
+            fn room(what: &str, len: usize, over: usize) -> Result<usize> {
+                if len <= over {
+                    let msg = format!("{} must be larger than {}", what, over);
+                    return Err(Error::InvalidPacket(msg.into()));
+                }
+                Ok(len - over)
+            }
+            pub fn f(len: usize) -> Result<usize> { let r = room("ack length", len, 12)?; Ok(r) }
+            pub fn g(len: usize) -> Result<usize> { let r = room(len, len, 12)?; Ok(r) }
+            pub fn h(len: usize) -> usize { let msg = format!("{}", len); msg.len() }
+        "#;
+        let out = flat(&tr(src, &group(&[], &[("", "f")], vec![])).unwrap());
+        assert!(out.contains("Res.err E.Error_InvalidPacket"), "{}", out);
+        assert!(out.contains("Machine.subU p len over"), "{}", out);
+        let e = tr(src, &group(&[], &[("", "g")], vec![])).unwrap_err();
+        assert!(e.contains("is not a constant message"), "{}", e);
+        let e = tr(src, &group(&[], &[("", "h")], vec![])).unwrap_err();
+        assert!(e.contains("unknown identifier `msg`"), "{}", e);
+    }
+
+    #[test]
+    fn lean_name_collisions_are_refused_and_none_takes_its_type_from_the_context() {
+        let src = format!("{}\nimpl Item {{ pub fn len(&self) -> u16 {{ self.len }} pub fn mk(a: u64) -> Item {{ Item {{ pos: a, len: 0 }} }} }}", IT);
+        for n in ["len", "mk"] {
+            let e = tr(&src, &group(&["Item", "It"], &[("Item", n)], vec![])).unwrap_err();
+            assert!(e.contains("would collide"), "{}", e);
+        }
+        let src = format!("{}\npub fn pick(k: u16) -> Option<Item> {{ if k == 0 {{ return None; }} Some(Item::new(1, k)) }}", IT);
+        let out = flat(&tr(&src, &group(&["Item", "It"], &[("", "pick")], vec![])).unwrap());
+        assert!(out.contains("Res ε (Option Item)") && out.contains("Res.ok none"), "{}", out);
     }
 }
